@@ -11,6 +11,7 @@ import (
 
 	"github.com/ErdemOzgen/blackdagger/internal/dag"
 	"github.com/ErdemOzgen/blackdagger/internal/util"
+	"github.com/ErdemOzgen/blackdagger/internal/verifhook"
 )
 
 type commandExecutor struct {
@@ -48,6 +49,7 @@ func newCommand(ctx context.Context, step dag.Step) (Executor, error) {
 }
 
 func (e *commandExecutor) Run() error {
+	verifhook.Point("cmdexec.beforeStart", e.cmd)
 	e.lock.Lock()
 	err := e.cmd.Start()
 	e.lock.Unlock()
